@@ -28,6 +28,8 @@ pub enum T {
     IncText,
     Keys,
     CreateDb,
+    /// create-db naming the database the worker already uses, with another token: refused, and nothing may change
+    CreateExisting,
     GetSecure,
     /// user-permission probes (only meaningful after UseUser): read of b-key (no r), write of a-key (no w), read of a-key (ok), write of b-key (ok)
     UserReadDenied,
@@ -76,6 +78,7 @@ fn render(t: &T, id: u64, seq: usize, db: &str) -> String {
         T::IncText => "increment s0".into(),
         T::Keys => format!("keys k{}x*", id),
         T::CreateDb => format!("create-db c{}s{} t", id, seq),
+        T::CreateExisting => format!("create-db {} other", db),
         T::GetSecure => "get $$secret".into(),
         T::UserReadDenied => format!("get b{}", id),
         T::UserWriteDenied => format!("set a{} nope", id),
@@ -125,6 +128,13 @@ fn expect(m: &mut Model, t: &T, line: &str) -> Exp {
         T::CreateDb => {
             if m.admin {
                 e("create-db success\n")
+            } else {
+                e("Not auth")
+            }
+        }
+        T::CreateExisting => {
+            if m.admin {
+                e("database already exists")
             } else {
                 e("Not auth")
             }
@@ -246,7 +256,7 @@ fn expect(m: &mut Model, t: &T, line: &str) -> Exp {
 fn templates() -> Vec<T> {
     vec![
         T::AuthOk, T::AuthBad, T::UseOk, T::UseBad, T::UseUser, T::Get(0), T::GetSafe(0), T::Set(0), T::Set(1), T::SetSafeOk(0), T::SetSafeStale(0), T::Remove(0),
-        T::IncNum, T::IncText, T::Keys, T::CreateDb, T::GetSecure, T::UserReadDenied, T::UserWriteDenied, T::UserReadOk, T::UserWriteOk, T::Watch(0), T::Unknown, T::Get(1),
+        T::IncNum, T::IncText, T::Keys, T::CreateDb, T::CreateExisting, T::GetSecure, T::UserReadDenied, T::UserWriteDenied, T::UserReadOk, T::UserWriteOk, T::Watch(0), T::Unknown, T::Get(1),
     ]
 }
 
@@ -255,7 +265,7 @@ fn classify(t: &T, m_db: bool, exp: &Exp) -> &'static str {
         Exp::Exact(s) if s == NO_DB => "refused:no-db-selected",
         Exp::Exact(s) if s == "permission denied\n" => "refused:permission",
         Exp::Exact(s) if s.starts_with("To read security") => "refused:secure-key",
-        Exp::Exact(s) if s == "Not auth" || s == "Invalid token" || s == "Invalid version!" || s == "Key is not numeric" || s.starts_with("unknown command") => "refused:other",
+        Exp::Exact(s) if s == "Not auth" || s == "Invalid token" || s == "Invalid version!" || s == "Key is not numeric" || s == "database already exists" || s.starts_with("unknown command") => "refused:other",
         Exp::Exact(s) if s == "empty" => "ok:empty",
         _ => {
             let _ = (t, m_db);
